@@ -10,6 +10,7 @@ import (
 	"encoding/json"
 	"fmt"
 	"math/big"
+	"strconv"
 	"strings"
 
 	"github.com/libsv/go-bk/base58"
@@ -235,6 +236,49 @@ func genC19(e *emitter, r *rng, thorough bool) {
 	n := 60
 	if thorough {
 		n = 1000
+	}
+	// several generating calls in a row, all results held until the end (freshness ACROSS calls)
+	for i := 0; i < n/3; i++ {
+		var items []string
+		m := 2 + r.intn(5)
+		for j := 0; j < m; j++ {
+			switch r.intn(4) {
+			case 0:
+				items = append(items, "k")
+			case 1, 2:
+				items = append(items, fmt.Sprintf("s%d", 16+r.intn(49)))
+			default:
+				items = append(items, fmt.Sprintf("e%d", []int{128, 160, 192, 224, 256}[r.intn(5)]))
+			}
+		}
+		if i%7 == 3 {
+			items = append(items, []string{"s15", "s65", "e127", "e288", "s0"}[r.intn(5)], "s32")
+		}
+		if i%5 == 0 { // the same request repeated: equal-length results must still be independent
+			items = []string{"s32", "s32", "s32", "s64", "s16"}
+		}
+		if i%5 == 1 {
+			items = []string{"e256", "e256", "e128", "e256"}
+		}
+		tape := runWithGenTape(r, -1, func() {
+			for _, it := range items {
+				var err error
+				switch it[0] {
+				case 'k':
+					_, err = bec.NewPrivateKey(bec.S256())
+				case 's':
+					v, _ := strconv.Atoi(it[1:])
+					_, err = bip32.GenerateSeed(uint8(v))
+				default:
+					v, _ := strconv.Atoi(it[1:])
+					_, err = bip39.GenerateEntropy(bip39.Entropy(v))
+				}
+				if err != nil {
+					return
+				}
+			}
+		})
+		e.emit("rng.seq", "rng.seq "+strings.Join(items, ",")+" "+tape)
 	}
 	for i := 0; i < n; i++ {
 		// interleaved randomised calls on one generating tape; each emitted op carries exactly the reads it saw
@@ -551,6 +595,23 @@ func genC15(e *emitter, r *rng, thorough bool) {
 			}
 		}
 		return x
+	}
+	// every short payload length WITH a checksum that is right for it (the empty payload included): decoders that
+	// index into the payload after the checksum test must still answer with an error, never panic
+	for l := 0; l <= 6; l++ {
+		for t := 0; t < 3; t++ {
+			pl := r.bytes(l)
+			if t == 1 {
+				pl = make([]byte, l)
+			}
+			if t == 2 && l > 0 {
+				pl[0] = 0x80
+			}
+			x := []byte(base58.Encode(append(append([]byte{}, pl...), crypto.Sha256d(pl)[:4]...)))
+			e.emit(fmt.Sprintf("b58c.short-goodck%d", l), "b58.cdec "+hx(x))
+			e.emit(fmt.Sprintf("wif.short-goodck%d", l), "wif.dec "+hx(x))
+			e.emit(fmt.Sprintf("xkey.short-goodck%d", l), xkLine("str:"+hx(x), nil))
+		}
 	}
 	for i := 0; i < n; i++ {
 		raw := r.bytes(randLen())
